@@ -159,7 +159,13 @@ SYNTH["T6"] = ("huawei", "interface *\n"
 SYNTH["T7"] = ("huawei", "interface *\n"
                          "    nd ra interval *\n"
                          "    description ~\n")
-SYNTH_ACL = {"T6": "interface *\n    nd ra interval *\n    description ~\n",
+# an ACL in which two rules of equal prio match one row and differ in cant_delete, the looser one winning by a narrow margin of
+# the shared-symbols metric; another job meets the protected rule through its NEGATED form first (anything remembered per rule
+# while matching one form must not decide the other form's ranking)
+SYNTH["T8"] = ("huawei", "dn *\n"
+                         "sysname *\n")
+SYNTH_ACL = {"T8": "dn * %cant_delete=1\ndn */u./\nsysname *\n",
+             "T6": "interface *\n    nd ra interval *\n    description ~\n",
              "T3": "ip access-list *\n    ~ %global\nntp server <srv>\nroute-map *\n    ~ %global\n",
              "T4": "interface * %prio=1\n    description ~ %cant_delete=1\n    mtu *\n"
                    "interface */Eth.*/\n    description ~ %cant_delete=0\n    mtu * %cant_delete=1\n"}
@@ -202,6 +208,10 @@ SYNTH_JOBS = [
     {"id": "synth/T7/a", "text": "T7", "logic": "same-rows-no-flag", "add_comments": False, "acl": "T6",
      "old": [["interface e1", [["ND RA Interval 10", []], ["description Up", []]]]],
      "new": [["interface e1", [["nd ra interval 10", []], ["description up", []]]]]},
+    {"id": "synth/T8/a", "text": "T8", "logic": "acl-negated-first", "add_comments": False, "acl": "T8",
+     "old": [["undo dn zz", []], ["sysname a", []]], "new": [["sysname b", []]]},
+    {"id": "synth/T8/b", "text": "T8", "logic": "acl-narrow-margin", "add_comments": False, "acl": "T8",
+     "old": [["dn uo", []], ["sysname a", []]], "new": [["sysname a", []]]},
     {"id": "synth/T3/b", "text": "T3", "logic": "default_instead_undo", "add_comments": False,
      "old": [["ip access-list B", [["permit 9", []]]], ["ntp server 3.3.3.3", []], ["no thing 1", []], ["stray row", []]],
      "new": [["route-map N", [["set z", []]]], ["stray row 2", []]]},
